@@ -201,6 +201,8 @@ type seedMeta struct {
 	// refactor: behaviour-preserving change written by a sub-agent; the properties listed here are known to report it
 	// (an idiom the rules do not recognise yet) — recorded imprecision, not an expectation
 	KnownFalseAlarms []string `json:"known_false_alarms"`
+	// a change that manifests only on another target (DEMO_GOARCH=386): the variant is analysed as loaded for that target
+	DemoEnv map[string]string `json:"demo_env"`
 }
 
 func thoroughSelfTest(id string, rep *core.Report, repo, vdir string) {
@@ -245,6 +247,9 @@ func thoroughSelfTest(id string, rep *core.Report, repo, vdir string) {
 				return "skipped: patch does not apply to the current tree (" + firstLines(string(out), 1) + ")"
 			}
 			run := exec.Command(exe, "-repo", scratch, "-verif", vdir, "-prop", id, "-tier", "quick", "-no-evidence")
+			if arch := m.DemoEnv["DEMO_GOARCH"]; arch != "" {
+				run.Env = append(os.Environ(), "GOARCH="+arch)
+			}
 			out, _ := run.CombinedOutput()
 			fired := strings.Contains(string(out), "VIOLATION property="+id)
 			if strings.Contains(string(out), "BROKEN") {
